@@ -72,7 +72,7 @@ func init() {
 }
 
 func init() {
-	props["C01"] = &propInfo{engine: "B", level: "exploration", minOutcomes: 2, mustOutcomes: []string{"matched", "fired"},
+	props["C01"] = &propInfo{engine: "B", level: "exploration", minOutcomes: 2, mustOutcomes: []string{"matched", "fired", "in-scope", "out-of-scope"},
 		assume: []string{"'an equal value' = Go equality for scalars, deep equality for lists and maps; event states hold ECAL values (numbers are float64)", "left open: a rule suppressing itself, regular expressions against a NULL state value, wildcard or empty segments inside an event kind"}}
 }
 
